@@ -1060,10 +1060,24 @@ def minimise(chk, tmpl, r, failing):
     return run_case(chk, tmpl, 'shrunk', c)
 
 
+def private_copy(chk, xvc):
+    """The binary just built, copied into the scratch directory of this run: several checks run at the same time and each
+    of them runs `cargo build` in the same tree, which replaces target/debug/xvc (for a moment the file does not exist,
+    and after a transient edit of the tree by somebody else it is another program). One run = one binary."""
+    try:
+        d = os.path.join(chk.scratch, 'bin')
+        os.makedirs(d, exist_ok=True)
+        dst = os.path.join(d, 'xvc')
+        shutil.copy2(xvc, dst)
+        return dst
+    except OSError:
+        return xvc
+
+
 def run(chk: Check):
     quick = chk.tier == 'quick'
     model = chk.lean('XvcGit', 'XvcGit.Props', exe='gitmodel', extra_modules=['XvcGit.Model', 'XvcGit.Lemmas'])
-    xvc = chk.build_xvc()
+    xvc = private_copy(chk, chk.build_xvc())
     chk.trusted_base += [
         'git (the real binary, version recorded in evidence) — its behaviour is an ASSUMED model in Lean (stashPushStaged, stashPopIndex, gitAdd, gitCommit, checkoutNewBranch, gitCheckout on the conflict-free fragment), validated differentially on every run',
         'lib/c15.py: state generator, abstraction of a real repository (git ls-files/ls-tree/for-each-ref/stash list + hashing of work-tree files), oracle, diff',
@@ -1180,7 +1194,7 @@ def run(chk: Check):
 
 
 def replay(chk: Check, data):
-    xvc = chk.build_xvc()
+    xvc = private_copy(chk, chk.build_xvc())
     tmpl = build_templates(chk, xvc, {template_kind(f['case']) for f in data.get('failures', [])})
     for i, f in enumerate(data.get('failures', [])):
         r = run_case(chk, tmpl, f'replay-{i}', f['case'])
